@@ -270,6 +270,29 @@ CHECKS = {
     ),
 }
 
+# coverage added in the third round (appended to the level text of the property)
+ROUND3 = {
+    "C01": "On overlapping blocks the order of the bases is compared as well (one known finding).",
+    "C02": "Operands located in coordinate systems (same / different chunk of one chromosome, different grandparents): parent refusals and answers of every binary operation (C02.R8).",
+    "C03": "Slices and repeated extraction on sequences whose location has overlapping blocks; appends of operands that are themselves appended across a gap.",
+    "C05": "Exons shorter than a codon (1-2 bases; first, inner, last) under every frame vector.",
+    "C06": "Coordinate API also on 3- and 4-exon transcripts.",
+    "C07": "Multi-exon layouts with exons entirely 5' of the chunk, gene-level twins; a chunk holding CDS bases but no complete codon must answer with no codons.",
+    "C08": "Explicit parent argument overrides an embedded parent; collection guid sensitive to variant members; digest arguments kept apart (one known finding).",
+    "C09": "Expansion past either edge of a sequence-carrying collection refused; members reaching the chunk's last base; feature sequences; ranges wholly beyond the chunk.",
+    "C10": "Repeatable outcomes (C10.RR): the same call, import or __setstate__ twice gives the same value or refusal and leaves its arguments unchanged.",
+    "C11": "Export on cutting chunks (C11.RC) and with one-shot iterables.",
+    "C12": "Multi-isoform non-coding genes (feature key per transcript).",
+    "C13": "Coding incorporation also on chunks cutting the CDS 5' end.",
+    "C14": "Alternate constructors give the same records; names with blanks survive.",
+    "C15": "reverse_complement is letter-wise (C15.R4b).",
+    "C16": "Query sets for ranges reaching beyond 2^29; a gene's bin comes from its own span when isoforms sit in sibling bins.",
+    "C17": "Several collections in one export (running locus-tag offset); /pseudo from any isoform.",
+    "C18": "Merge values of different lengths stay in plain sorted order.",
+    "C19": "Objects built at extreme coordinates (up to and at 2^29) are well formed (C19.RB); distance_to refusals across parents.",
+    "C20": "Members large enough to overflow a packed ranking key.",
+}
+
 NOT_YET = "rules for this property are not implemented in this commit (see DESIGN.md section 6b for the order)"
 
 
@@ -287,7 +310,8 @@ def main():
                 evidence_file=f"/verif/evidence/{pid}.json",
                 replay_cmd_template="./check --replay {path}",
                 engine="sa",
-                level_claimed=dict(category="other", text=c["text"], design_ref=c["design"]),
+                level_claimed=dict(category="other", text=c["text"] + (" Added later: " + ROUND3[pid] if pid in ROUND3 else ""),
+                                   design_ref=c["design"]),
                 level_note=c["note"],
                 technique=c["technique"],
             ))
